@@ -14,6 +14,14 @@ claimed = {
    text="NewEventKey proved bit-exactly (all keys, runes, modifier masks): control runes become Key(ch) with Ctrl except BS/TAB/CR/ESC, DEL becomes Backspace2. For every registered terminal description (enumerated by evaluating the real init functions and AddTerminfo), the real prepareKeys is evaluated on the concrete description and the resulting table is checked exhaustively: prefix-freeness, every key capability present and decoding to a key the description assigns to it, xterm modifier parameter 2..16 on cursor/editing/function keys equals the xterm Shift/Alt/Ctrl/Meta formula, control bytes, and decoding of capability sequences (plain and after ESC: Alt added) through the real parseFunctionKey.",
    note="Assumed: xterm PC-style modifier encoding and terminfo capability naming as the oracle; map iteration evaluated in insertion order (quick) and also reverse order (thorough), order-independence otherwise rests on the proved prefix-freeness; decoding of concatenations rests on C02 (not yet claimed); lone ESC / timeout behaviour is part of the driver (C02).",
    technique="contract-based deductive verification: bit-vector contract for NewEventKey; evaluation rule (complete symbolic evaluation of the real code on each concrete description) for the tables", ref="6 (C03)"),
+ "C07": dict(cat="proof",
+   text="Every distinct parameterized string of every registered description (enumerated from the real init functions) and every sequence tcell hard-codes is evaluated by the REAL TParm with all nine parameters fully symbolic (64-bit vectors, every path) and compared path by path with a reference terminfo(5) evaluator written from the manual page; the real code's index/nil/division obligations along those evaluations are discharged too. Static variables are checked across two calls. Complete for those programs over all integers, not a sample.",
+   note="Assumed: the reference evaluator (govc/ref_terminfo.go) is the oracle; Sprintf/Itoa renderings compared as opaque pieces by their arguments. The clause about ARBITRARY well-formed strings is only covered by a fixed grammar corpus of 32 programs (bounded stand-in, listed in the evidence, not counted as proved); robustness on malformed byte strings (no panic/hang for all inputs) is not proved (TParm's main loop has no inductive invariant).",
+   technique="contract-based deductive verification, evaluation rule: complete symbolic evaluation of the real TParm on each concrete program against a reference semantics; z3/cvc5 for the per-path equalities", ref="6 (C07)"),
+ "C15": dict(cat="proof",
+   text="For every registered description the REAL TGoto(col,row) and TColor(fg,bg) are evaluated with fully symbolic 64-bit arguments and proved equal, on every path, to the reference terminfo(5) evaluation of that description's own cup / setaf / setab strings with (row,col) resp. the folded and range-checked colour (bright colours folded iff Colors==8, component elided iff negative or >= Colors).",
+   note="Assumed: the reference terminfo(5) evaluator is the oracle and cup takes (row, column); TPuts padding stripping is not under contract yet (that clause of C15 is not claimed); 'the convention can express' is taken as what the description's own cup string defines.",
+   technique="contract-based deductive verification, evaluation rule on each concrete description with symbolic positions/colours", ref="6 (C15)"),
  "C08": dict(cat="proof",
    text="Whole-view contracts on every CellBuffer operation (SetContent, GetContent, Dirty, SetDirty, Invalidate, LockCell, UnlockCell, Fill, Resize, Size) proved for all sizes, coordinates, runes, styles and combining slices: the cell written holds exactly what was set (fresh copy of the combining runes, ColorNone merged), every other cell and field is unchanged, out-of-range accesses do nothing, Dirty equals the specification predicate over the last-clean snapshot, wide-rune neighbours are dirtied, Resize keeps the overlap (2-D inductive invariants) and dirties/unlocks everything. Loops cut with inductive invariants; index arithmetic y*w+x is nonlinear and unbounded.",
    note="Assumed: go-runewidth RuneWidth is a total function with values 0..2; reflect.DeepEqual on []rune modelled as element-wise equality; machine integers treated as mathematical; Resize(w,h) requires w,h>=0; GetContent returns the internal combining slice (a caller mutating the returned slice is outside the property).",
